@@ -164,6 +164,8 @@ Print Assumptions C14_hypotheses_satisfiable.
 (* ---- (3) moves --------------------------------------------------------------------------------------------------- *)
 (* native move construction / move assignment: the target is exactly the former source object graph, the source is
    MovedFrom, nothing is copied and no element is even moved; the old target is released through its own manager. *)
+(* the FIRST conjunct is definitional (cc_move_ctor src := (src, MovedFrom), Model.v; content: C14_cc_move_ctor_refines_generated
+   + the direct run + the tie); the second (move assignment: events, old target released through its own manager) is not. *)
 Theorem C14_move_leaves_source_empty_native :
   (forall src, cc_move_ctor src = (src, MovedFrom)) /\
   (forall k dst src w, cc_wf dst ->
@@ -211,6 +213,9 @@ Proof. exact arr_reusable. Qed.
 Print Assumptions C14_array_reusable_after_move.
 
 (* ---- (4) swap, self assignment ----------------------------------------------------------------------------------- *)
+(* DEFINITIONAL: cc_swap is defined as (b, a) in Model.v -- this restates the model; the content is in the refinement to the
+   generated Swap (C14_cc_swap_refines_generated), the direct run of the generated Swap against the real objects (stage
+   corr:generated-vs-code) and the tie of the model against the real containers. *)
 Theorem C14_swap_exact_native : forall a b, cc_swap a b = (b, a).
 Proof. exact swap_exact_native. Qed.
 Print Assumptions C14_swap_exact_native.
@@ -238,6 +243,7 @@ Print Assumptions C14_swap_exact_array.
 
 (* x = std::move(x) (HashSet/TreeSet/HashMultiMap idiom X(std::move(x)).Swap(x)) is the identity in every state,
    including MovedFrom, with no event *)
+(* follows by unfolding cc_self_move_assign (definitional for the model); the real containers are checked by the tie *)
 Theorem C14_self_assign_identity : forall k c w, cc_self_move_assign k c w = Ok c w.
 Proof. exact self_move_assign_identity. Qed.
 Print Assumptions C14_self_assign_identity.
@@ -335,6 +341,8 @@ Print Assumptions C14_copy_is_deep_structured.
 
 (* Move steals the whole graph (generations, nodes, pools, value arrays, rows, freeRaws) and agrees with the abstract
    model; swap exchanges the crews together with everything that points into them. *)
+(* the first conjunct restates the definition of s_move_ctor (Bodies.v); the others (agreement with the abstract model, pools,
+   generation counts, shapes) follow from it *)
 Theorem C14_move_steals_graph :
   forall src,
     s_move_ctor src = (src, SMovedFrom) /\
@@ -346,6 +354,7 @@ Theorem C14_move_steals_graph :
 Proof. exact s_move_steals_graph. Qed.
 Print Assumptions C14_move_steals_graph.
 
+(* the first conjunct restates the definition of s_swap (Bodies.v) *)
 Theorem C14_swap_exchanges_crews_with_pools :
   forall a b,
     s_swap a b = (b, a) /\
@@ -599,7 +608,7 @@ Print Assumptions C14_gen_hash_needs_crew_when_owning.
 Theorem C14_gen_multi_table_clear :
   (forall cnt, Gen_HashMultiMap.Clear true cnt = GenPrelude.Ok (tt, cnt) /\ Gen_HashMultiMap.Clear false cnt = GenPrelude.Ok (tt, 0)) /\
   (Gen_DataTable.Clear true = GenPrelude.Ok tt /\ Gen_DataTable.Clear false = GenPrelude.Ok tt).
-Proof. exact (conj gen_multi_clear gen_table_clear). Qed.
+Proof. exact gen_multi_table_clear. Qed.
 Print Assumptions C14_gen_multi_table_clear.
 
 (* REFINEMENT: the hand model's cc_clear (Model.v) succeeds exactly when the generated Clear of the same kind does not get
@@ -909,3 +918,53 @@ Theorem C14_gen_copy_assign_compositions :
      (th', tn', tv') = (ch, cn, cv) /\ (mh, mn, mv) = (th, tn, tv)).
 Proof. exact gen_copy_assign_compositions. Qed.
 Print Assumptions C14_gen_copy_assign_compositions.
+
+(* ------------------------------------------------------------------------------------------------------------------ *)
+(* Review-fix round.  (a) the decision rules of ALL SIX stdish wrappers (unordered_map, unordered_set, unordered_multimap, map,
+   set, vector), extracted from the headers, are the same functions -- so the um_* theorems above speak for every wrapper *)
+Theorem C14_stdish_rules_same_code :
+  (forall tr, Gen_StdishDecisions.us_move_propagate tr = Gen_StdishDecisions.um_move_propagate tr /\
+              Gen_StdishDecisions.umm_move_propagate tr = Gen_StdishDecisions.um_move_propagate tr /\
+              Gen_StdishDecisions.m_move_propagate tr = Gen_StdishDecisions.um_move_propagate tr /\
+              Gen_StdishDecisions.s_move_propagate tr = Gen_StdishDecisions.um_move_propagate tr /\
+              Gen_StdishDecisions.v_move_propagate tr = Gen_StdishDecisions.um_move_propagate tr) /\
+  (forall tr, Gen_StdishDecisions.us_copy_propagate tr = Gen_StdishDecisions.um_copy_propagate tr /\
+              Gen_StdishDecisions.umm_copy_propagate tr = Gen_StdishDecisions.um_copy_propagate tr /\
+              Gen_StdishDecisions.m_copy_propagate tr = Gen_StdishDecisions.um_copy_propagate tr /\
+              Gen_StdishDecisions.s_copy_propagate tr = Gen_StdishDecisions.um_copy_propagate tr /\
+              Gen_StdishDecisions.v_copy_propagate tr = Gen_StdishDecisions.um_copy_propagate tr) /\
+  (forall tr eq, Gen_StdishDecisions.us_swap_assert tr eq = Gen_StdishDecisions.um_swap_assert tr eq /\
+              Gen_StdishDecisions.umm_swap_assert tr eq = Gen_StdishDecisions.um_swap_assert tr eq /\
+              Gen_StdishDecisions.m_swap_assert tr eq = Gen_StdishDecisions.um_swap_assert tr eq /\
+              Gen_StdishDecisions.s_swap_assert tr eq = Gen_StdishDecisions.um_swap_assert tr eq /\
+              Gen_StdishDecisions.v_swap_assert tr eq = Gen_StdishDecisions.um_swap_assert tr eq) /\
+  (forall p, Gen_StdishDecisions.us_move_alloc_from_right p = p /\ Gen_StdishDecisions.umm_move_alloc_from_right p = p /\
+             Gen_StdishDecisions.m_move_alloc_from_right p = p /\ Gen_StdishDecisions.s_move_alloc_from_right p = p /\
+             Gen_StdishDecisions.v_move_alloc_from_right p = p /\ Gen_StdishDecisions.um_move_alloc_from_right p = p /\
+             Gen_StdishDecisions.us_copy_alloc_from_right p = p /\ Gen_StdishDecisions.umm_copy_alloc_from_right p = p /\
+             Gen_StdishDecisions.m_copy_alloc_from_right p = p /\ Gen_StdishDecisions.s_copy_alloc_from_right p = p /\
+             Gen_StdishDecisions.v_copy_alloc_from_right p = p /\ Gen_StdishDecisions.um_copy_alloc_from_right p = p) /\
+  (Gen_StdishDecisions.um_steal_when_equal = true /\ Gen_StdishDecisions.us_steal_when_equal = true /\
+   Gen_StdishDecisions.umm_steal_when_equal = true /\ Gen_StdishDecisions.m_steal_when_equal = true /\
+   Gen_StdishDecisions.s_steal_when_equal = true /\ Gen_StdishDecisions.v_steal_when_equal = true) /\
+  (Gen_StdishDecisions.um_move_self_guard = true /\ Gen_StdishDecisions.um_copy_self_guard = true /\
+   Gen_StdishDecisions.s_move_self_guard = true /\ Gen_StdishDecisions.s_copy_self_guard = true /\
+   Gen_StdishDecisions.v_move_self_guard = true /\ Gen_StdishDecisions.v_copy_self_guard = true).
+
+Proof. exact stdish_rules_same_code. Qed.
+Print Assumptions C14_stdish_rules_same_code.
+
+(* (b) C14_clear_refines_generated compares only "does not get stuck" at one instantiation; this one compares the FIELDS:
+   whenever the hand model's cc_clear returns c', the generated Clear on the abstracted fields of c returns the abstracted
+   fields of c' (count, storage pointers), for every bucket-chain flag and capacity.  (DataTable::Clear is translated with
+   every effect skipped -- fields: {} -- so for it only "does not get stuck" has content.) *)
+Theorem C14_clear_refines_generated_fields :
+  forall c w c' w', cc_wf c ->
+    (cc_clear KTree c w = Ok c' w' ->
+       Gen_TreeSet.Clear (crew_null_of c) (count_of c) (storage_of c) (storage_of c) = GenPrelude.Ok (tt, count_of c', storage_of c', storage_of c')) /\
+    (cc_clear KHash c w = Ok c' w' -> forall nb cap, exists cap',
+       Gen_HashSet.Clear (crew_null_of c) nb (count_of c) cap (storage_of c) true = GenPrelude.Ok (tt, count_of c', cap', storage_of c')) /\
+    (cc_clear KMulti c w = Ok c' w' ->
+       Gen_HashMultiMap.Clear (crew_null_of c) (count_of c) = GenPrelude.Ok (tt, count_of c')).
+Proof. exact clear_refines_generated_fields. Qed.
+Print Assumptions C14_clear_refines_generated_fields.
